@@ -40,6 +40,12 @@ ASSUMPTIONS = [
     "per-rule theorems are stated on the mutated annotation (its other tags individually conforming: "
     "C01_reach_phase1/3, C01_reach_full_phase); the relational Mut formulation is proved for the string-level rules "
     "(C01_mutation_reports_code_string_level)",
+    "value-class acceptance (_check_value_class) is modelled on the implementation's per-class verdicts "
+    "(Model/ValValue.v, correspondence on every value tag met); the expected verdict of the ORACLE is computed from the "
+    "XML reading + class_regex.json with python re, independently of hed-python",
+    "history independence of a validator object is a theorem of the (stateless) model and a TESTED clause on the "
+    "implementation: sequences of 2-6 annotations on one HedValidator must give the verdicts of fresh validators and "
+    "of the model's vrun",
     "the model follows /repo HEAD incl. the fix: commits 5df7886 (parenthesis nesting), 7597eca + 2492808 (canonical "
     "duplicate detection, case-folded tag equality) and cbb8087 (Def-expand compared up to sibling order, seen through "
     "the _validate_def_contents fact); the duplicate-check theorems reuse C04's string order, stable-sort facts and "
@@ -132,7 +138,24 @@ def leaf(fn, bad):
             "TypeError", "KeyError", "AttributeError", "ValueError", "IndexError", "RecursionError") else "Unmodelled"]
 
 
-def tag_facts(tag, parent, hs, validator, c, ph, bad):
+def value_line(tag, validator, bad, vlines, values_sx):
+    """(V takes_value ((word_ok (curly...))...)) + what _check_value_class returned, for Model/ValValue.v."""
+    try:
+        if not tag.is_takes_value_tag():
+            return
+        classes = list(tag.value_classes.keys())
+        if not classes:
+            return
+        cr = validator._unit_validator._char_validator
+        ext = tag.extension
+        cls = [[bool(cr.is_valid_value(ext, cn)), [ch in "{}" for _, ch in cr.get_problem_chars(ext, cn)]]
+               for cn in classes]
+        vlines.append((C.to_sx(["V", True, cls]), values_sx, tag.org_tag))
+    except Exception as e:  # noqa
+        bad.append("per-class value verdict raised " + type(e).__name__)
+
+
+def tag_facts(tag, parent, hs, validator, c, ph, bad, vlines=None):
     from hed.schema.hed_schema_constants import HedKey
     from hed.models.model_constants import DefTagNames
     schema = c["schema"]
@@ -160,58 +183,84 @@ def tag_facts(tag, parent, hs, validator, c, ph, bad):
     if res_issues[0] != "ok":
         bad.append("resolution raised " + res_issues[1])
         res_issues = ["ok", []]
+    values_sx = leaf(lambda: uv.check_tag_value_class_valid(tag, ext), bad)
+    if vlines is not None:
+        value_line(tag, validator, bad, vlines, values_sx)
     return ["T", C.cps(org), C.cps(tag.short_tag.casefold()), resolved, res_issues[1], len(tag._extension_value),
             C.cps(sbase), C.cps(tag.long_tag.casefold()), tag.is_takes_value_tag(),
             tag.has_attribute(HedKey.ExtensionAllowed), tag.has_attribute(HedKey.RequireChild),
             tag.has_attribute(HedKey.DeprecatedFrom), tag.base_tag_has_attribute(HedKey.TagGroup),
             tag.base_tag_has_attribute(HedKey.TopLevelTagGroup), tag.is_unit_class_tag(), tag.is_value_class_tag(),
             leaf(lambda: uv.check_tag_unit_class_units_are_valid(tag, ext), bad),
-            leaf(lambda: uv.check_tag_value_class_valid(tag, ext), bad),
+            values_sx,
             leaf(lambda: uv.check_tag_unit_class_units_are_valid(tag, ext[:-2]), bad),
             leaf(lambda: uv.check_tag_value_class_valid(tag, ext[:-2]), bad),
             def_units, def_contents, entry is not None, bool(entry.takes_value) if entry is not None else False]
 
 
-def forest_sx(group, hs, validator, c, ph, bad):
+def forest_sx(group, hs, validator, c, ph, bad, vlines=None):
     from hed.models.hed_tag import HedTag
     out = []
     for ch in group.children:
         if isinstance(ch, HedTag):
-            out.append(tag_facts(ch, group, hs, validator, c, ph, bad))
+            out.append(tag_facts(ch, group, hs, validator, c, ph, bad, vlines))
         else:
-            out.append(["G", forest_sx(ch, hs, validator, c, ph, bad)])
+            out.append(["G", forest_sx(ch, hs, validator, c, ph, bad, vlines)])
     return out
 
 
+def impl_text(c, text, ph, shared=None):
+    """One annotation: verdict of a FRESH validator, the model input, and (if given) the verdict of the SHARED
+    validator object that has already validated the earlier annotations of the sequence."""
+    from hed.models.hed_string import HedString
+    from hed.validator import HedValidator
+    r = {}
+    hs = HedString(text, c["schema"], c["defs"])
+    try:
+        iss = hs.validate(allow_placeholders=ph)
+        r["issues"] = sorted((i["code"], int(i["severity"])) for i in iss)
+        r["kinds"] = sorted(str(i.get("_kind")) for i in iss)
+    except Exception as e:  # noqa
+        r["exn"] = type(e).__name__
+    if shared is not None:
+        try:
+            iss = shared.validate(HedString(text, c["schema"], c["defs"]), allow_placeholders=ph)
+            r["shared"] = sorted((i["code"], int(i["severity"])) for i in iss)
+        except Exception as e:  # noqa
+            r["shared"] = "raises " + type(e).__name__
+    bad = []
+    vlines = []
+    hs2 = HedString(text, c["schema"], c["defs"])
+    validator = HedValidator(c["schema"], def_dicts=c["defs"])
+    try:   # the anchored two-phase mechanism, observed on the implementation alone
+        bs = validator.run_basic_checks(hs2, allow_placeholders=ph)
+        r["basic"] = sorted((i["code"], int(i["severity"])) for i in bs)
+    except Exception as e:  # noqa
+        r["basic"] = None
+    validator = HedValidator(c["schema"], def_dicts=c["defs"])
+    f = forest_sx(hs2, hs2, validator, c, ph, bad, vlines)
+    cfg = [ph, c["modern"], False, [C.cps(x) for x in c["required"]], [C.cps(x) for x in c["unique"]]]
+    r["line"] = C.to_sx([cfg, C.cps(text), f])
+    r["vlines"] = vlines
+    r["bad"] = bad
+    if c["modern"] != c["modern_xml"]:
+        r["bad"] = bad + ["schema_83_props differs from the XML header reading"]
+    return r
+
+
 def impl_one(case):
-    """Validate on the implementation and extract the model input from a second, fresh HedString."""
-    key, text, ph = case["schema"], case["text"], case["ph"]
+    """Validate on the implementation and extract the model input from a second, fresh HedString.
+    A case with "seq" is a SEQUENCE of annotations validated by ONE HedValidator object."""
+    key, ph = case["schema"], case["ph"]
     r = {"i": case["i"]}
     try:
         c = ctx(key, case.get("defs_extra", False))
-        from hed.models.hed_string import HedString
-        from hed.validator import HedValidator
-        hs = HedString(text, c["schema"], c["defs"])
-        try:
-            iss = hs.validate(allow_placeholders=ph)
-            r["issues"] = sorted((i["code"], int(i["severity"])) for i in iss)
-            r["kinds"] = sorted(str(i.get("_kind")) for i in iss)
-        except Exception as e:  # noqa
-            r["exn"] = type(e).__name__
-        bad = []
-        hs2 = HedString(text, c["schema"], c["defs"])
-        validator = HedValidator(c["schema"], def_dicts=c["defs"])
-        try:   # the anchored two-phase mechanism, observed on the implementation alone
-            bs = validator.run_basic_checks(hs2, allow_placeholders=ph)
-            r["basic"] = sorted((i["code"], int(i["severity"])) for i in bs)
-        except Exception as e:  # noqa
-            r["basic"] = None
-        f = forest_sx(hs2, hs2, validator, c, ph, bad)
-        cfg = [ph, c["modern"], False, [C.cps(x) for x in c["required"]], [C.cps(x) for x in c["unique"]]]
-        r["line"] = C.to_sx([cfg, C.cps(text), f])
-        r["bad"] = bad
-        if c["modern"] != c["modern_xml"]:
-            r["bad"] = bad + ["schema_83_props differs from the XML header reading"]
+        if "seq" in case:
+            from hed.validator import HedValidator
+            shared = HedValidator(c["schema"], def_dicts=c["defs"])
+            r["steps"] = [impl_text(c, st["text"], ph, shared) for st in case["seq"]]
+        else:
+            r.update(impl_text(c, case["text"], ph))
     except Exception as e:  # noqa
         r["harness_exn"] = traceback.format_exc()[-1500:]
     return r
@@ -359,29 +408,117 @@ def gen_exhaustive(seed, keys):
 
 
 # ------------------------------------------------------------------------------------------------ oracle
-def oracle(case, r, res):
+def _cc(case):
+    return {"schema": case["schema"], "text": case["text"], "allow_placeholders": case["ph"], "rule": case["rule"],
+            "expect": case.get("expect"), "expect_all": case.get("expect_all"),
+            "defs_extra": case.get("defs_extra", False)}
+
+
+def oracle(case, r, res, cc=None):
     """The clauses of the property statement, checked on the implementation alone."""
-    cc = {"schema": case["schema"], "text": case["text"], "allow_placeholders": case["ph"], "rule": case["rule"],
-          "expect": case["expect"], "defs_extra": case.get("defs_extra", False)}
-    if case["expect"] == "*":
+    cc = cc or _cc(case)
+    if case.get("expect") == "*":
         return True
     if "exn" in r:
         res.report("validation-raises", cc, r["exn"])
         return False
     errs = [c for c, s in r["issues"] if s < 10]
-    fid = case.get("known")
     if r.get("basic") and any(s < 10 for _, s in r["basic"]) and r["basic"] != r["issues"]:
         res.report("two-phase", cc, f"basic phase has an error but validate returned {r['issues']} instead of "
                                     f"{r['basic']}")
         return False
-    if case["expect"] is None:
+    want = list(case.get("expect_all") or ([case["expect"]] if case.get("expect") else []))
+    if not want:
         if errs:
             res.report("conforming-no-error", cc, f"errors={sorted(set(errs))}")
             return False
-    elif case["expect"] not in errs:
-        res.report("mutation-reports-code", cc, f"expected {case['expect']} among errors={sorted(set(errs))}")
-        return False
+    else:
+        missing = [w for w in want if w not in errs]
+        if missing:
+            res.report("mutation-reports-code", cc, f"expected {want} among errors={sorted(set(errs))}")
+            return False
     return True
+
+
+def oracle_seq(case, r, res):
+    """A sequence of annotations on ONE validator object: every annotation must get the verdict a fresh validator
+    gives it (the property quantifies over annotations, not over histories), and that verdict must satisfy the
+    statement's clauses."""
+    ok = True
+    texts = [st["text"] for st in case["seq"]]
+    for k, (st, rs) in enumerate(zip(case["seq"], r["steps"])):
+        sub = dict(st, schema=case["schema"], ph=case["ph"])
+        cc = _cc(sub)
+        cc.update({"seq": texts, "step": k})
+        if not oracle(sub, rs, res, cc):
+            ok = False
+        fresh = ("raises " + rs["exn"]) if "exn" in rs else rs["issues"]
+        if rs.get("shared") != fresh:
+            res.report("history-independent", cc,
+                       f"step {k} ({st['text']!r}) on a validator that validated {texts[:k]} before: "
+                       f"{rs.get('shared')} but a fresh validator gives {fresh}")
+            ok = False
+    return ok
+
+
+def value_and_sequence_cases(tier, seed, keys, plain_cases):
+    """(1) every value-class SET of each schema x candidate values, expectation from the XML + class_regex.json;
+       (2) sequences of annotations for one validator object."""
+    allsch = X.load_all()
+    CR = G.ClassRegex(os.path.join(C.REPO, "hed/validator/util/class_regex.json"))
+    out = []
+    for key in keys:
+        V = G.Vocab(X.schema_for_use(key, allsch))
+        rng = random.Random(f"vs-{seed}-{key}")
+        by_long = {n["long"]: n for n in V.valued}
+        for text, kind, codes, meta in G.value_cases(rng, V, CR, 2 if tier == "quick" else None):
+            ph = rng.random() < 0.5
+            b = G.Builder(rng, V, ph)
+            tree = b.tree(rng.randint(0, 2)) if rng.random() < 0.6 else []
+            # keep the context free of the tag under test (no accidental repeat)
+            base = text.split("/")[-2] if "/" in text else text
+            if any(base.casefold() in str(x).casefold() for x in tree):
+                tree = []
+            tree.insert(rng.randint(0, len(tree)), text)
+            out.append(dict(schema=key, text=G.render(tree, rng), ph=ph, expect=None,
+                            expect_all=sorted(codes) if kind == "bad" else None,
+                            rule="value:" + "+".join(meta["classes"] or ["none"]) + (":unit" if meta["unit"] else "")
+                                 + ":accepted_by_%d" % meta["accepted_by"]))
+        if not V.has_defs:
+            continue
+        pairs = G.def_case_pairs(rng, V)
+        mine = [c for c in plain_cases if c["schema"] == key and "seq" not in c and c.get("expect") != "*"
+                and not c.get("defs_extra")]
+        nseq = 40 if tier == "quick" else 150
+        for j in range(nseq):
+            ph = rng.random() < 0.5
+            steps = []
+            if pairs and j % 2 == 0:
+                good, bad = rng.choice(pairs)
+                num = rng.choice(["3", "25", "7", "1.5"])
+                tmpl = rng.choice(["Def/LenDef/{}", "(" + V.filler + ", Def/LenDef/{})", "{}".join(["Def/LenDef/", ", " + V.filler])]
+                                  + (["(Def/LenDef/{}, Onset)"] if "Onset" in V.temporal else []))
+                g = dict(text=tmpl.format(num + " " + good), expect=None, rule="def_value_case_valid")
+                bd = dict(text=tmpl.format(num + " " + bad), expect="DEF_INVALID", rule="def_value_case_bad_unit")
+                steps = rng.choice([[g, bd], [bd, g], [g, bd, g], [bd, g, bd]])
+                same = [c for c in mine if c["ph"] == ph]
+                if same and rng.random() < 0.5:
+                    o = rng.choice(same)
+                    steps.insert(rng.randint(0, len(steps)), dict(text=o["text"], expect=o.get("expect"),
+                                                                  expect_all=o.get("expect_all"), rule=o["rule"]))
+            else:
+                same = [c for c in mine if c["ph"] == ph]
+                for o in rng.sample(same, min(len(same), rng.randint(2, 5))):
+                    steps.append(dict(text=o["text"], expect=o.get("expect"), expect_all=o.get("expect_all"),
+                                      rule=o["rule"]))
+            if steps:
+                out.append(dict(schema=key, ph=bool(ph), seq=steps, rule="sequence",
+                                text=" ;; ".join(st["text"] for st in steps)))
+    return out
+
+
+def _model_issues(m):
+    return sorted((C.uncps(x[2]), 1 if x[3] == "E" else 10) for x in m[1])
 
 
 def run(tier, seed, res, model_ok=True, proof_ok=True):
@@ -395,34 +532,40 @@ def run(tier, seed, res, model_ok=True, proof_ok=True):
     else:
         keys = keys_all
         cases = corpus_cases() + gen_cases(tier, seed, keys, 700 if proof_ok else 1500) + gen_exhaustive(seed, keys)
+    cases += value_and_sequence_cases(tier, seed, keys, cases)
     for i, c in enumerate(cases):
         c["i"] = i
     with Pool(int(C.JOBS)) as pool:
-        impl = pool.map(impl_one, cases, chunksize=64)
+        impl = pool.map(impl_one, cases, chunksize=32)
 
     n_fail = 0
     for c, r in zip(cases, impl):
         if "harness_exn" in r:
             res.violation("harness-error", {"text": c["text"], "schema": c["schema"]}, r["harness_exn"], no_input=True)
             continue
-        if not oracle(c, r, res):
+        if not (oracle_seq(c, r, res) if "seq" in c else oracle(c, r, res)):
             n_fail += 1
 
     disagreements = 0
     compared = 0
     if model_ok:
         exe = C.build_driver("c01")
-        idx = [i for i, r in enumerate(impl) if "line" in r]
-        outs = C.run_driver(exe, [impl[i]["line"] for i in idx])
-        for i, m in zip(idx, outs):
-            c, r = cases[i], impl[i]
+        # flatten: one (case, step, result) per annotation
+        flat = []
+        for c, r in zip(cases, impl):
+            if "steps" in r:
+                flat += [(c, k, rs) for k, rs in enumerate(r["steps"]) if "line" in rs]
+            elif "line" in r:
+                flat.append((c, None, r))
+        outs = C.run_driver(exe, [x[2]["line"] for x in flat])
+        for (c, k, r), m in zip(flat, outs):
             compared += 1
             diffs = list(r.get("bad", []))
             if m[0] == "exn":
                 if r.get("exn") != m[1]:
                     diffs.append(f"model raises {m[1]}, impl {r.get('exn') or r.get('issues')}")
             elif m[0] == "ok":
-                mi = sorted((C.uncps(x[2]), 1 if x[3] == "E" else 10) for x in m[1])
+                mi = _model_issues(m)
                 if "exn" in r:
                     diffs.append(f"impl raises {r['exn']}, model {mi}")
                 elif mi != r["issues"]:
@@ -434,24 +577,61 @@ def run(tier, seed, res, model_ok=True, proof_ok=True):
                 diffs.append(f"driver: {m}")
             if diffs:
                 disagreements += 1
-                res.violation("correspondence", {"schema": c["schema"], "text": c["text"],
+                text = c["text"] if k is None else c["seq"][k]["text"]
+                res.violation("correspondence", {"schema": c["schema"], "text": text,
                                                  "allow_placeholders": c["ph"], "rule": c["rule"]},
                               "; ".join(diffs)[:1500], no_input=True)
+        # sequences: the model's operation-sequence semantics (vrun on one state) vs the shared validator object
+        seqs = [(c, r) for c, r in zip(cases, impl) if "steps" in r and all("line" in rs for rs in r["steps"])]
+        souts = C.run_driver(exe, ["(S " + " ".join(rs["line"] for rs in r["steps"]) + ")" for c, r in seqs])
+        for (c, r), ms in zip(seqs, souts):
+            compared += 1
+            for k, (rs, m) in enumerate(zip(r["steps"], ms)):
+                mm = ("raises " + m[1]) if m[0] == "exn" else _model_issues(m)
+                if mm != rs.get("shared"):
+                    disagreements += 1
+                    res.violation("correspondence-sequence",
+                                  {"schema": c["schema"], "seq": [st["text"] for st in c["seq"]], "step": k,
+                                   "allow_placeholders": c["ph"]},
+                                  f"step {k}: validator object gives {rs.get('shared')}, model sequence gives {mm}",
+                                  no_input=True)
+                    break
+        # value-class acceptance: Model/ValValue.v on the implementation's per-class verdicts vs _check_value_class
+        vl = {}
+        for c, k, r in flat:
+            for line, want, org in r.get("vlines", []):
+                vl.setdefault((line, C.to_sx(want)), (c["schema"], org, want))
+        vkeys = list(vl)
+        vouts = C.run_driver(exe, [k[0] for k in vkeys])
+        for key, m in zip(vkeys, vouts):
+            compared += 1
+            schema, org, want = vl[key]
+            got = sorted(" ".join(y for y in x[:2] if y != "-") for x in m[1]) if m[0] == "ok" else m
+            exp = sorted(" ".join(x) for x in want[1]) if want[0] == "ok" else want
+            if got != exp:
+                disagreements += 1
+                res.violation("correspondence-value-class", {"schema": schema, "tag": org, "per_class": key[0]},
+                              f"_check_value_class gives {exp}, model value_class_issues gives {got}", no_input=True)
 
     hist = collections.Counter(c["rule"] for c in cases)
     per_schema = collections.Counter(c["schema"] for c in cases)
+    n_annot = sum(len(c["seq"]) if "seq" in c else 1 for c in cases)
     distinct = len({(c["schema"], c["text"], c["ph"]) for c in cases if any(ch in c["text"] for ch in ",(/")})
     return {
-        "evaluations": len(cases),
+        "evaluations": n_annot,
         "distinct_nontrivial": distinct,
-        "rule": "corpus (Appendix A examples, known-finding witnesses) + per schema random conforming trees (nesting <= 4, "
+        "rule": "corpus (Appendix A examples, former-finding witnesses) + per schema random conforming trees (nesting <= 4, "
                 "definitions, temporal/duration/event-context templates, with/without placeholders) each with "
-                "single-rule mutations" + ("" if tier == "quick" else " + every tag x {short,long,partial} form with its "
-                "applicable mutation classes") + "; non-trivial = distinct (schema, text, placeholders) containing a "
-                "delimiter or a slash",
+                "single-rule mutations + every value-class SET of the schema x 18 candidate values (expectation from the "
+                "XML reading + class_regex.json) + sequences of 2-6 annotations on ONE validator object (Def values "
+                "differing only in letter case in both orders, and random mixes)"
+                + ("" if tier == "quick" else " + every tag x {short,long,partial} form with its applicable mutation "
+                   "classes + every valued tag x candidate values")
+                + "; non-trivial = distinct (schema, text, placeholders) containing a delimiter or a slash",
         "samples": [cases[0]["text"], cases[len(cases) // 3]["text"], cases[len(cases) // 2]["text"], cases[-1]["text"]],
         "histogram": {"by_rule": dict(hist), "by_schema": dict(per_schema),
                       "placeholders_allowed": sum(1 for c in cases if c["ph"]),
+                      "sequences": sum(1 for c in cases if "seq" in c),
                       "max_len": max(len(c["text"]) for c in cases)},
         "schemas": keys,
         "oracle_failures": n_fail,
@@ -468,17 +648,46 @@ def translate():
 
 def replay(payload):
     case = payload.get("case") or {}
-    if "text" not in case or "schema" not in case:
+    if "schema" not in case or ("text" not in case and "seq" not in case):
         print("no concrete input in replay:", str(payload.get("detail", ""))[:800])
         return 1
-    c = dict(schema=case["schema"], text=case["text"], ph=case.get("allow_placeholders", False),
-             expect=case.get("expect"), rule=case.get("rule", "replay"), defs_extra=case.get("defs_extra", False), i=0)
-    r = impl_one(c)
-    print("input:", repr(c["text"]), "schema", c["schema"], "allow_placeholders", c["ph"])
-    print("impl :", r.get("exn") or r.get("issues"))
+    ph = case.get("allow_placeholders", False)
     res = C.Result(PROP)
     res.known_ids = {}
     rc = 0
+    if "seq" in case:
+        steps = [dict(text=t, expect=None, rule="replay") for t in case["seq"]]
+        if "step" in case and 0 <= case["step"] < len(steps) and "text" in case:
+            steps[case["step"]].update(expect=case.get("expect"), expect_all=case.get("expect_all"))
+        c = dict(schema=case["schema"], ph=ph, seq=steps, rule="sequence", text=" ;; ".join(case["seq"]), i=0)
+        r = impl_one(c)
+        if "harness_exn" in r:
+            print(r["harness_exn"])
+            return 1
+        print("sequence on ONE validator, schema", c["schema"], "allow_placeholders", ph)
+        for st, rs in zip(steps, r["steps"]):
+            print("  ", repr(st["text"]), "-> validator object:", rs.get("shared"), "| fresh validator:",
+                  rs.get("exn") or rs.get("issues"))
+        for st in steps:       # only the history clause and the recorded step expectation are re-judged
+            if st["rule"] == "replay" and not st.get("expect") and not st.get("expect_all"):
+                st["expect"] = "*"
+        for k, (st, rs) in enumerate(zip(steps, r["steps"])):
+            fresh = ("raises " + rs["exn"]) if "exn" in rs else rs["issues"]
+            if rs.get("shared") != fresh:
+                print(f"FAILS: history-independent at step {k}")
+                rc = 1
+            sub = dict(st, schema=c["schema"], ph=ph)
+            if st.get("expect") != "*" and not oracle(sub, rs, res):
+                rc = 1
+        for v in res.violations:
+            print("FAILS:", v["clause"], v["detail"])
+        return rc
+    c = dict(schema=case["schema"], text=case["text"], ph=ph, expect=case.get("expect"),
+             expect_all=case.get("expect_all"), rule=case.get("rule", "replay"),
+             defs_extra=case.get("defs_extra", False), i=0)
+    r = impl_one(c)
+    print("input:", repr(c["text"]), "schema", c["schema"], "allow_placeholders", c["ph"])
+    print("impl :", r.get("exn") or r.get("issues"))
     if payload.get("clause") in ("conforming-no-error", "mutation-reports-code", "validation-raises", "two-phase"):
         if not oracle(c, r, res):
             for v in res.violations:
@@ -488,7 +697,7 @@ def replay(payload):
         try:
             exe = C.build_driver("c01")
             m = C.run_driver(exe, [r["line"]])[0]
-            mi = m if m[0] != "ok" else sorted((C.uncps(x[2]), 1 if x[3] == "E" else 10) for x in m[1])
+            mi = m if m[0] != "ok" else _model_issues(m)
             print("model:", mi)
             if (m[0] == "ok" and mi != r.get("issues")) or (m[0] == "exn" and r.get("exn") != m[1]):
                 print("FAILS: correspondence")
